@@ -331,6 +331,9 @@ def run(R):
     _text_keys(R, "C04.argkey")
     _rect(R, "C04.rect")
     _transform(R)
+    # a memo shared between groups (e.g. "the last value seen by this aggregate", whatever its group) lets one group's rows decide
+    # what another group's aggregate sees: the same analysis as C15.state, decided here for the isolation clause
+    _update_state(R, "C04.state")
     # ---- order
     a = P.adts.get(ENGINE.rstrip(":"))
     a = P.adts.get(AGG + "AggregateExecutionEngine")
@@ -768,6 +771,37 @@ def _slot_creation(R, rid):
                             "depends on the order of the lines" % (g0.path, short(c.name).split("::")[-1]), [c.loc()])
     if n == 0:
         raise AnchorMissing("%s: no insertion into the group tables found in get_group / get_group_value / get_group_aggregator" % rid)
+    # ... and nobody but those accessors (reached from the update of a validated row) creates a group: a group that no row made has no
+    # validated key - the result phase indexes the key mapping / the key parts of every group it finds
+    ENTRY = re.compile(r"^(std::collections::hash::map::HashMap|alloc::collections::btree::map::BTreeMap)::(insert|entry|extend|append)$")
+    acc = set(ENGINE + nm for nm in ("get_group", "get_group_value", "get_group_aggregator"))
+    outsiders = []
+    for k in sorted(P.fns):
+        f = P.fns[k]
+        if f.target != "lib" or f.derived or not f.spath.startswith(AGG):
+            continue
+        owner = f
+        while owner.kind == "Closure" and owner.parent_key in P.fns:
+            owner = P.fns[owner.parent_key]
+        if owner.spath in acc or (PR.pinned_fns() and owner.spath not in PR.pinned_fns()):
+            continue        # (helpers new to the tree are seen inlined in their callers)
+        fv = PR.view(P, f) if f.kind != "Closure" else f
+        for c in fv.calls:
+            if ENTRY.search(short(c.name)) and c.args and \
+                    set(F.source_fields(fv, c.args[0], depth=8)) & {"group_values", "group_aggregators"} and \
+                    not any(o.kind == "call" and short(o.call.name) in acc for o in F.origins(fv, c.args[0], depth=8)):
+                # inside an accessor that was inlined into this function the insertion is the accessor's own
+                if fv.blocks[c.bb].get("inl") and any(a_.split("::")[-1] in str(fv.blocks[c.bb].get("inl")) for a_ in acc):
+                    continue
+                outsiders.append((f, c))
+    if outsiders:
+        f, c = outsiders[0]
+        R.violation(rid, "%s|outside-accessor" % f.spath.split("::")[-1],
+                    "%s creates an entry of the group tables itself (%s) instead of through get_group*: a group that no aggregated row made "
+                    "has no validated key, and the result phase indexes the group-key mapping and key parts for every group it finds"
+                    % (f.path, short(c.name).split("::")[-1]), [c.loc()])
+    else:
+        R.ok(rid, "creators", "entries of the group tables are created only by the accessors", "src/execution/aggregate_execution.rs", nontrivial=False)
 
 
 def run_c15(R):
@@ -840,10 +874,10 @@ def run_c15(R):
              "necessary conditions above are")
 
 
-def _update_state(R):
+def _update_state(R, rid="C15.state"):
     """C15.state: the update phase keeps no memory besides the per-(group, aggregate) tables"""
     P = R.prog
-    R.rule("C15.state", "the update phase of the aggregate engine branches on no engine state other than the group tables (addressed by this row's "
+    R.rule(rid, "the update phase of the aggregate engine branches on no engine state other than the group tables (addressed by this row's "
                         "group key and this aggregate's index): a memo or cursor shared between rows, groups or aggregates makes the result "
                         "depend on the order in which lines arrive")
     a = P.adts.get(AGG + "AggregateExecutionEngine")
@@ -876,14 +910,14 @@ def _update_state(R):
         key = f.spath.split("::")[-1]
         if sinks:
             flds = sorted(other_fields)
-            R.violation("C15.state", key + "|" + ",".join(flds),
+            R.violation(rid, key + "|" + ",".join(flds),
                         "%s branches on engine state outside the group tables (field %s, read at line %s): what is done with a row then depends on "
                         "the rows seen before it, beyond the group's own aggregate state" % (f.path, "/".join(flds), lines[:1]),
                         [f.loc(sinks[0])])
         else:
-            R.ok("C15.state", key, "no branch depends on a non-group field (engine fields: %s)" % sorted(group_fields | other_fields), f.loc(),
+            R.ok(rid, key, "no branch depends on a non-group field (engine fields: %s)" % sorted(group_fields | other_fields), f.loc(),
                  nontrivial=(n <= 3))
-    R.floor("C15.state", 4)
+    R.floor(rid, 4)
 
 
 def _count_descr(f, op, depth=8):
